@@ -294,11 +294,32 @@ def write_replay(pid, kind, payload):
     return rel
 
 
+class CaseTimeout(BaseException):
+    """raised by SIGALRM inside a call of the real code; BaseException so that `except Exception` in chempy cannot swallow it"""
+
+
+CASE_TIMEOUT_S = 60
+
+
+def _alarm(signum, frame):
+    raise CaseTimeout()
+
+
 def safe(fn, *a):
+    """call into the harness / the real code: never crashes the check, never runs away"""
+    import signal
+    limit = getattr(getattr(fn, '__self__', None), 'case_timeout', CASE_TIMEOUT_S)
+    old = signal.signal(signal.SIGALRM, _alarm)
+    signal.alarm(int(limit))
     try:
         return fn(*a)
+    except CaseTimeout:
+        return '!timeout:%ds' % limit
     except Exception as e:  # the harness itself must not crash on a changed tree
         return '!harness-exception:%s:%s' % (type(e).__name__, str(e)[:200])
+    finally:
+        signal.alarm(0)
+        signal.signal(signal.SIGALRM, old)
 
 
 def check(prop, tier, seed):
@@ -318,12 +339,29 @@ def check(prop, tier, seed):
 
     # 1-3: extract, build, audit (serialised between concurrently running checks)
     def build_phase():
+        """Gen files already as the extractor would write them (the normal case): build under the SHARED lock, so that
+        checks of different properties run side by side. Otherwise rewrite them under the exclusive lock."""
+        nonlocal thms
+        sys.path.insert(0, os.path.join(VERIF, 'tools'))
+        from extract import run_all
+        gendir = os.path.join(LEAN, 'ChemModel', 'Gen')
+        problems, files = run_all.compute(REPO)
+        for p in problems:
+            log('extract:', p)
+        with Lock(shared=True):
+            if run_all.on_disk(gendir, files):
+                return build_locked()
+        with Lock():
+            for fn, content in files.items():
+                if not run_all.on_disk(gendir, {fn: content}):
+                    with open(os.path.join(gendir, fn), 'w', encoding='utf-8') as f:
+                        f.write(content)
+            return build_locked()
+
+    def build_locked():
         nonlocal thms
         br = []
-        with Lock():
-            problems = extract_all()
-            for p in problems:
-                log('extract:', p)
+        if True:
             mods = [prop.props_module] + list(prop.build_modules)
             ok, errors, out = lake_build(mods)
             thms = {}
